@@ -61,6 +61,9 @@ func drawC10(rt *rapid.T) *Case {
 	// a nested filter inside the operand, then a function: the count of positive elements of @.v
 	positive := &gen.Query{Kind: gen.QCmp, Op: ">", A: &gen.Operand{P: &gen.Path{Root: gen.RootAt}}, B: &gen.Operand{IsLit: true, LK: gen.LNum, Num: "0"}}
 	atVFiltCount := &gen.Path{Root: gen.RootAt, Steps: []gen.Step{name("v"), {Kind: gen.KFilter, Q: positive}, fn("g1", true)}}
+	// ... and a nested filter that reads a root member: the elements of @.v greater than $.x
+	aboveX := &gen.Query{Kind: gen.QCmp, Op: ">", A: &gen.Operand{P: &gen.Path{Root: gen.RootAt}}, B: &gen.Operand{P: &gen.Path{Root: gen.RootDollar, Steps: []gen.Step{name("x")}}}}
+	atVFiltDollar := &gen.Path{Root: gen.RootAt, Steps: []gen.Step{name("v"), {Kind: gen.KFilter, Q: aboveX}, fn("g1", true)}}
 	dollarX := &gen.Path{Root: gen.RootDollar, Steps: []gen.Step{name("x")}}
 	dollarY := &gen.Path{Root: gen.RootDollar, Steps: []gen.Step{name("y")}}
 
@@ -68,7 +71,9 @@ func drawC10(rt *rapid.T) *Case {
 	q := &gen.Query{}
 	isRegex := gen.Uniform(rt, "regex", 8) == 0
 	var left *gen.Path
-	switch k := gen.Uniform(rt, "leftform", 15); {
+	switch k := gen.Uniform(rt, "leftform", 16); {
+	case k == 15:
+		left = atVFiltDollar
 	case k == 14:
 		left = atVFiltCount
 	case k < 5:
@@ -89,7 +94,7 @@ func drawC10(rt *rapid.T) *Case {
 	pathVsPath := false
 	if isRegex {
 		q.Kind, q.P = gen.QRegex, left
-		q.Re = []string{"a", "^1", "^$", "(?i)a", "[0-9]+", "a/b", ".", "^(true|null)$"}[gen.Uniform(rt, "re", 8)]
+		q.Re = []string{"a", "^1", "^$", "(?i)a", "[0-9]+", "a/b", ".", "^(true|null)$", "^1$", "^a$", `\Aab\z`, "^10$", "1$"}[gen.Uniform(rt, "re", 13)]
 	} else {
 		q.Kind = gen.QCmp
 		q.Op = ops6[gen.Uniform(rt, "op", 6)]
@@ -112,7 +117,7 @@ func drawC10(rt *rapid.T) *Case {
 		a := &gen.Operand{P: left}
 		var b *gen.Operand
 		k := gen.Uniform(rt, "rightform", 10)
-		if !numeric && (left == atVfn || left == atVf2 || left == dollarXsCount || left == atVFiltCount) {
+		if !numeric && (left == atVfn || left == atVf2 || left == dollarXsCount || left == atVFiltCount || left == atVFiltDollar) {
 			// == / != between two paths is reflect.DeepEqual: a user function that returns float64
 			// next to json.Number document values is outside the property's domain (its quantifier
 			// restricts path-vs-path == to identically represented numbers), so function operands
